@@ -6,6 +6,9 @@ import concurrent.futures, os, subprocess, sys
 sys.path.insert(0, os.path.join(os.path.dirname(os.path.abspath(__file__)), "..", "lib"))
 import vf
 
+# which variant of Model/FsPoll.v the implementation is compared with: "fspoll" = the code as it is
+# (fx = false); once notes/C17_fix_fs_poll_ctx.diff is applied to /repo this becomes "fspoll-fixed"
+FSPOLL_VARIANT = "fspoll"
 KEY_OLD_CTX = "fs_poll_restart_with_stat_in_flight_uses_old_ctx"
 KEY_START_ERR = "fs_poll_start_error_frees_ctx_with_linked_timer"
 KEY_ISDIR = "fs_event_attrib_on_directory_reports_rename_too"
@@ -710,7 +713,39 @@ def fe_walk(case, raw):
                 dirs.discard(p)
             elif kind == "r":
                 q = int(a[1])
-                if p not in exists or p in dirs or q == p or FE_PARENT.get(q) not in exists or q in dirs:
+                if p not in exists or q == p or FE_PARENT.get(q) not in exists:
+                    continue
+                if p in dirs:
+                    # a directory moves: onto nothing or onto an empty directory, never below itself
+                    if FE_PARENT.get(q) == p or (q in exists and q not in dirs) or \
+                            (q in dirs and any(FE_PARENT.get(x) == q and x in exists for x in range(10))):
+                        continue
+                    for h in watchers(p, True):
+                        exp.append((h, 0, None, c))
+                        H[h]["stale"] = True
+                    if q in exists:
+                        for h in watchers(q, True):
+                            H[h]["stale"] = True
+                    for h in watchers(par, False):
+                        exp.append((h, UV_RENAME, fe_base(p), c))
+                    for h in watchers(FE_PARENT[q], False):
+                        exp.append((h, UV_RENAME, fe_base(q), c))
+                    for x in range(10):                      # what was inside is out of reach now
+                        if FE_PARENT.get(x) == p and x in exists:
+                            for h in at_start:
+                                if H[h]["path"] == x:
+                                    H[h]["stale"] = True
+                            exists.discard(x)
+                    for h in at_start:
+                        if H[h]["path"] == p:
+                            H[h]["stale"] = True
+                    exists.discard(p)
+                    dirs.discard(p)
+                    exists.add(q)
+                    dirs.add(q)
+                    inode[q] = inode[p]
+                    continue
+                if q in dirs:
                     continue
                 if inode.get(q) == inode[p] and q in exists:
                     continue            # rename between two links of one inode does nothing
@@ -859,24 +894,25 @@ def fsevent_part(chk, exe, model, thorough, work):
         corpus = [l.rstrip("\n") for l in open(p) if l.strip() and not l.startswith("#")]
     if chk.replay:
         rp = vf.json.load(open(chk.replay))
-        cases = [rp["script"]] if rp.get("obligation", "").startswith("linux.c") and "script" in rp else []
+        cases = [rp["case"].split("  ## script: ")[-1]] if rp.get("obligation", "").startswith("linux.c") else []
     else:
         cases = corpus + [fe_case(chk.rng) for _ in range(4000 if thorough else 300)]
     if not cases:
         return
     res = run_each(exe, cases, work, "e")
-    minputs, impl, info = [], [], {}
+    minputs, impl, info, dec = [], [], {}, []
     for c, (out, rc, err) in zip(cases, res):
         if rc != 0 or "Sanitizer" in err or "runtime error" in err:
             chk.violation("linux.c (inotify): the harness aborted (%s)" % (
                 "sanitizer report" if "Sanitizer" in err or "runtime error" in err else "exit %d" % rc),
-                {"kind": "asan", "obligation": "linux.c inotify = Model/Inotify.v", "script": c,
+                {"kind": "asan", "obligation": "linux.c inotify = Model/Inotify.v",
                  "case": c, "stderr": err[-2500:], "stdout": out[:2000]}, found_input=True)
             continue
         mi, im, errs = fe_walk(c, out)
         minputs.append(mi)
         impl.append(im)
-        info[mi] = (c, errs, out)
+        dec.append(mi + "  ## script: " + c)
+        info[dec[-1]] = (c, errs, out)
     mout, _, _ = vf.run_lines([model, "fsevent"], minputs, shards=8) if minputs else ([], 0, "")
     stats = {"cb": 0, "rm": 0, "known": 0}
 
@@ -898,7 +934,7 @@ def fsevent_part(chk, exe, model, thorough, work):
             elif first is None:
                 first = "unlisted finding " + e[6:] + "  [script: " + c + "]"
         return first
-    vf.diff_cases(chk, "linux.c inotify = Model/Inotify.v", minputs, impl, mout, monitor)
+    vf.diff_cases(chk, "linux.c inotify = Model/Inotify.v", dec, impl, mout, monitor)
     chk.cov["fs_event_scripts"] = len(cases)
     chk.cov["fs_event_callbacks_observed"] = stats["cb"]
     chk.cov["fs_event_lists_freed_observed"] = stats["rm"]
@@ -916,7 +952,7 @@ def fspoll_part(chk, exe, model, thorough, work):
             dst += [l.rstrip("\n") for l in open(p) if l.strip() and not l.startswith("#")]
     if chk.replay:
         rp = vf.json.load(open(chk.replay))
-        cases = [rp["case"].split("  ## ")[0]] if rp.get("obligation", "").startswith("fs-poll") else []
+        cases = [rp["case"].split("  ## script: ")[-1]] if rp.get("obligation", "").startswith("fs-poll") else []
         known_cases, corpus = [], []
     else:
         cases = known_cases + corpus + [fp_case(chk.rng) for _ in range(3000 if thorough else 260)]
@@ -934,17 +970,18 @@ def fspoll_part(chk, exe, model, thorough, work):
         toks, groups, other = fp_canon(out)
         keep.append((c, toks, groups, other))
         minputs.append(fp_model_input(c, groups))
-    mout, _, merr = vf.run_lines([model, "fspoll"], minputs, shards=8) if minputs else ([], 0, "")
+    mout, _, merr = vf.run_lines([model, FSPOLL_VARIANT], minputs, shards=8) if minputs else ([], 0, "")
     mfix, _, _ = vf.run_lines([model, "fspoll-fixed"], minputs, shards=8) if minputs else ([], 0, "")
     by_case, nself = {}, 0
-    for (c, toks, groups, other), mi, mf, mo in zip(keep, minputs, mfix, mout):
+    dec = [mi + "  ## script: " + k[0] for k, mi in zip(keep, minputs)]
+    for (c, toks, groups, other), mi, mf, mo in zip(keep, dec, mfix, mout):
         by_case[mi] = (c, groups, other, mf, mo)
         # the repaired variant of the model must satisfy the monitor on every script
         r = fp_monitor_with(c, mf.split(), groups, 0)
         if r is not None and nself == 0:
             nself += 1
             chk.violation("fs-poll: the repaired model variant violates the monitor (%s)" % r,
-                          {"kind": "selfcheck", "obligation": "fs-poll monitor vs Model/FsPoll.v fx=true",
+                          {"kind": "selfcheck", "obligation": "monitor vs Model/FsPoll.v fx=true",
                            "case": mi, "model_fixed": mf}, found_input=False)
 
     stats = {"known": 0, "callbacks": 0, "closes": 0}
@@ -963,7 +1000,7 @@ def fspoll_part(chk, exe, model, thorough, work):
             return "KNOWN:" + KEY_OLD_CTX
         return r
     impl = [" ".join(k[1]) for k in keep]
-    vf.diff_cases(chk, "fs-poll.c = Model/FsPoll.v", minputs, impl, mout, monitor)
+    vf.diff_cases(chk, "fs-poll.c = Model/FsPoll.v", dec, impl, mout, monitor)
     chk.cov["fs_poll_scripts"] = len(cases)
     chk.cov["fs_poll_callbacks_observed"] = stats["callbacks"]
     chk.cov["fs_poll_close_callbacks_observed"] = stats["closes"]
